@@ -184,7 +184,10 @@ class Cell:
                     raise AnalysisError('emit_json: reads below the top of the state stack')
                 return Sym('state', self.vis[rel]) if self.vis[rel] != '?' else Sym('unknown-state')
             if isinstance(b, dict):
-                return b[idx]
+                if idx not in b:
+                    return Sym('unk', 'missing key in %s' % ast.unparse(e)[:40])
+                v = b[idx]
+                return self.ev(v, env) if isinstance(v, ast.AST) else v
             raise AnalysisError('emit_json: unsupported subscript %s' % ast.unparse(e))
         if isinstance(e, ast.Dict):
             return {self._hashable(self.ev(k, env)): v for k, v in zip(e.keys, e.values)}
